@@ -152,7 +152,7 @@ Definition doc_cmp_closures : list (string * string) := [
   ("makeTextFilter", "func(src, varname string, op token.Token, rhsVarname string) filterFunc :: return func(params *filterParams) matchFilterResult { s1 := params.nodeText(params.subNode(varname)) lhsValue := constant.MakeString(string(s1)) n, _ := params.match.CapturedByName(rhsVarname) s2 := params.nodeText(n) rhsValue := constant.MakeString(string(s2)) if constant.Compare(lhsValue, op, rhsValue) { return filterSuccess } return filterFailure(src) }");
   ("exprListFilterApply", "func(src string, list []ast.Expr, fn func(ast.Expr) bool) matchFilterResult :: for _, e := range list { if !fn(e) { return filterFailure(src) } } ;; return filterSuccess");
   ("intValueOf", "func(info *types.Info, expr ast.Expr) constant.Value :: tv := info.Types[expr] ;; if tv.Value == nil { return nil } ;; if tv.Value.Kind() != constant.Int { return nil } ;; return tv.Value");
-  ("hasKnownSize", "func(typ types.Type) bool :: if isTypeParam(typ) { return false } ;; if basic, ok := typ.(*types.Basic); ok && basic.Info()&types.IsUntyped != 0 { return false } ;; return true");
+  ("hasKnownSize", "func(typ types.Type) bool :: typ = types.Unalias(typ) ;; if isTypeParam(typ) { return false } ;; if basic, ok := typ.(*types.Basic); ok && basic.Info()&types.IsUntyped != 0 { return false } ;; switch u := typ.Underlying().(type) { case *types.Array: return hasKnownSize(u.Elem()) case *types.Struct: for i := 0; i < u.NumFields(); i++ { if !hasKnownSize(u.Field(i).Type()) { return false } } } ;; return true");
   ("isTypeParam", "func(typ types.Type) bool :: _, ok := typ.(*typeparams.TypeParam) ;; return ok");
   ("isAbsentNode", "func(n ast.Node) bool :: if n == nil || gogrep.IsEmptyNodeSlice(n) { return true } ;; v := reflect.ValueOf(n) ;; return v.Kind() == reflect.Ptr && v.IsNil()")
 ].
